@@ -60,6 +60,7 @@ class Obj:
 
     def __init__(self, ty, discr=None):
         self.ty = ty
+        self.oid = next(_fresh_ctr)   # identity shared by copies: lazily materialised parts are memoised per oid
         self.fields = {}
         self.discr = discr     # Sym or None (lazy)
         self.tag = None        # free-form label set by summaries / obligations
@@ -70,6 +71,7 @@ class Obj:
 
 class VecV:
     def __init__(self, elem_ty, cap, length=None, elems=None):
+        self.oid = next(_fresh_ctr)
         self.elem_ty = elem_ty
         self.cap = cap
         self.len = length      # Sym usize
@@ -237,6 +239,7 @@ class Frame:
 class State:
     def __init__(self):
         self.mem = {}          # cell id -> Value
+        self.lazy = {}         # (oid, key) -> value materialised lazily (shared by copies of the same object)
         self.frames = []
         self.pc = []           # list of z3 Bool
         self.events = []       # (kind, name, payload)
@@ -318,6 +321,19 @@ class Executor:
             st.pc.append(z3.ULE(v.len.t, z3.BitVecVal(self.cap, 64)))
             return v
         o = Obj(t)
+        # enums: materialise the discriminant (and std payloads) eagerly so that copies share them
+        if bt in self.enums and not t.startswith("{"):
+            d = z3.BitVec(fresh_name("discr_" + bt), 64)
+            o.discr = Sym(d, "isize")
+            vals = sorted(set(self.enums[bt].values()))
+            st.pc.append(z3.Or([d == z3.BitVecVal(x, 64) for x in vals]))
+            ga = generic_args(t)
+            if bt == "Option" and ga:
+                o.fields[("Some", 0)] = self.fresh(ga[0], st, hint + "_some")
+            elif bt == "Result" and ga:
+                o.fields[("Ok", 0)] = self.fresh(ga[0], st, hint + "_ok")
+            elif bt == "Poll" and ga:
+                o.fields[("Ready", 0)] = self.fresh(ga[0], st, hint + "_rdy")
         return o
 
     def const(self, text, st):
@@ -340,6 +356,10 @@ class Executor:
             o = Obj("&str")
             o.tag = ("strlit", s)
             return o
+        m = re.fullmatch(r"<(\w+) as (?:[\w:]+::)?Key<[^>]*>>::(LEN|MEM_SIZE)", s)
+        if m:
+            ty = "u16" if m.group(2) == "LEN" else "usize"
+            return Sym(z3.BitVec("%s_%s" % (m.group(1), m.group(2)), INT_W[ty]), ty)
         nc = self.lookup_named_const(s, st)
         if nc is not None:
             return nc
@@ -433,7 +453,12 @@ class Executor:
         if isinstance(obj, Obj):
             k = (variant, idx)
             if k not in obj.fields:
-                obj.fields[k] = self.fresh(ty, st, "f%d" % idx)
+                mk = (obj.oid, k)
+                if mk in st.lazy:
+                    obj.fields[k] = copy.deepcopy(st.lazy[mk])
+                else:
+                    obj.fields[k] = self.fresh(ty, st, "f%s" % idx)
+                    st.lazy[mk] = copy.deepcopy(obj.fields[k])
             return obj.fields[k]
         raise Unsupported("field of %r" % (obj,))
 
@@ -452,7 +477,10 @@ class Executor:
             if p[0] == "downcast":
                 variant = p[1]
             elif p[0] == "field":
-                v = self._get_field(st, v, variant, p[1], p[2])
+                if isinstance(v, Ref) and p[1] == 0 and re.search(r"\b(Unique|NonNull)<", str(p[2])):
+                    pass    # Box<T> -> Unique<T> -> NonNull<T>: the same pointer
+                else:
+                    v = self._get_field(st, v, variant, p[1], p[2])
                 variant = None
             elif p[0] == "index":
                 v = self._index_read(st, v, p[1], proj[i + 1:])
@@ -462,7 +490,12 @@ class Executor:
 
     def _elem(self, st, vec, k):
         if vec.elems[k] is None:
-            vec.elems[k] = self.fresh(vec.elem_ty, st, "e%d" % k)
+            mk = (vec.oid, ("elem", k))
+            if mk in st.lazy:
+                vec.elems[k] = copy.deepcopy(st.lazy[mk])
+            else:
+                vec.elems[k] = self.fresh(vec.elem_ty, st, "e%d" % k)
+                st.lazy[mk] = copy.deepcopy(vec.elems[k])
         return vec.elems[k]
 
     def _index_read(self, st, v, idx, rest):
@@ -689,9 +722,10 @@ class Executor:
             o = Obj(path)
             for i, a in enumerate(rv.args):
                 o.fields[(None, i)] = self.operand(st, frame, a)
-            if path.startswith("{async") or path.startswith("{coroutine"):
-                o.discr = Sym(z3.BitVecVal(0, 32), "u32")
             o.tag = ("names", names)
+            if path.startswith("{async") or path.startswith("{coroutine"):
+                o.discr = Sym(z3.BitVecVal(0, 64), "isize")
+                o.tag = ("coroutine_of", frame.body.name)
             return o
         if k in ("adt_tuple", "adt_unit"):
             path = rv.extra
@@ -734,12 +768,17 @@ class Executor:
         if not isinstance(v, Obj):
             raise Unsupported("discriminant of %r" % (v,))
         if v.discr is None:
-            bt = base_type(v.ty).split("::")[-1]
-            d = z3.BitVec(fresh_name("discr_" + bt), 64)
-            v.discr = Sym(d, "isize")
-            if bt in self.enums:
-                vals = sorted(set(self.enums[bt].values()))
-                st.pc.append(z3.Or([d == z3.BitVecVal(x, 64) for x in vals]))
+            mk = (v.oid, "discr")
+            if mk in st.lazy:
+                v.discr = st.lazy[mk]
+            else:
+                bt = base_type(v.ty).split("::")[-1]
+                d = z3.BitVec(fresh_name("discr_" + bt), 64)
+                v.discr = Sym(d, "isize")
+                st.lazy[mk] = v.discr
+                if bt in self.enums:
+                    vals = sorted(set(self.enums[bt].values()))
+                    st.pc.append(z3.Or([d == z3.BitVecVal(x, 64) for x in vals]))
         w = INT_W.get((dest_ty or "isize").strip(), 64)
         t = v.discr.t
         if t.size() != w:
@@ -1028,6 +1067,13 @@ class Executor:
     def on_drop(self, st, frame, t):
         pass
 
+    def canon(self, body):
+        io = getattr(body, "impl_of", None)
+        if io is None:
+            return body.name
+        rest = body.name.rsplit(">::", 1)[1]
+        return ("<%s as %s>::%s" % (io[0], io[1], rest)) if io[1] else "%s::%s" % (io[0], rest)
+
     def set_dest_and_goto(self, st, t, val):
         """helper for handlers that fork themselves: store the call result and continue after the call"""
         f = st.frames[-1]
@@ -1077,24 +1123,41 @@ class Executor:
                 raise Unsupported("inlining diverging call " + func[:60])
             self.push_frame(st, body, args, t.dest, ret_bb)
             return None
-        # 3. async fn of this crate (returns its coroutine): make a future value
-        if body is not None and ("{async fn body" in body.ret_ty or "{async block" in body.ret_ty):
-            fut = FutureV(body.name, args, None, "async_fn")
-            return self.finish_call(st, frame, t, [(fut, None)], ret_bb)
-        # 4. havoc
+        # 3. any other function of this crate: opaque. Futures become FutureV (decided at poll), plain calls return an
+        #    arbitrary value of their type; both are logged as events.
+        if body is not None:
+            cname = self.canon(body)
+            self.stats["calls_havoc"][cname] = self.stats["calls_havoc"].get(cname, 0) + 1
+            rt = body.ret_ty
+            if "{async fn body" in rt or "{async block" in rt or "dyn futures::Future" in rt or "dyn Future" in rt \
+                    or "dyn std::future::Future" in rt:
+                fut = FutureV(cname, args, None, "async_fn")
+                return self.finish_call(st, frame, t, [(fut, None)], ret_bb)
+            hook = getattr(self, "call_hook", None)
+            if hook is not None:
+                r = hook(self, st, cname, args, dest_ty)
+                if r is not None:
+                    return self.finish_call(st, frame, t, r, ret_bb)
+            if ret_bb is None:
+                st.events.append(("call", cname, args, None))
+                st.status = "panic"
+                st.note = "diverging call " + cname[:60]
+                return [st]
+            v = self.fresh(dest_ty, st, "hv") if dest_ty != "?" else Obj("?")
+            st.events.append(("call", cname, args, v))
+            return self.finish_call(st, frame, t, [(v, None)], ret_bb)
+        # 4. havoc list (non-crate callees whose value no obligation inspects)
         if self.havoc(nf):
             self.stats["calls_havoc"][nf] = self.stats["calls_havoc"].get(nf, 0) + 1
-            st.events.append(("call", nf, args))
             if "dyn Future" in dest_ty or "dyn futures::Future" in dest_ty or "impl Future" in dest_ty:
-                m = re.search(r"Output = (.*)", dest_ty)
                 fut = FutureV(nf, args, None, "havoc")
-                fut.dest_ty = dest_ty
                 return self.finish_call(st, frame, t, [(fut, None)], ret_bb)
             if ret_bb is None:
                 st.status = "panic"
                 st.note = "diverging call " + nf[:60]
                 return [st]
             v = self.fresh(dest_ty, st, "hv") if dest_ty != "?" else Obj("?")
+            st.events.append(("call", nf, args, v))
             return self.finish_call(st, frame, t, [(v, None)], ret_bb)
         raise Unsupported("call to %s" % nf[:160])
 
@@ -1142,6 +1205,9 @@ class Executor:
                 s2.note = "diverging " + t.func[:60]
                 out.append(s2)
                 continue
+            if isinstance(val, tuple) and val and val[0] == "write_then":
+                self.write_path(s2, val[1].cell, val[1].proj, val[2])
+                val = val[3]
             if isinstance(val, tuple) and val and val[0] == "write":
                 wv = val[2] if i == len(feas) - 1 else copy.deepcopy(val[2])
                 self.write_path(s2, val[1].cell, val[1].proj, wv)
